@@ -91,9 +91,9 @@ def _drop_fingerprints(target, names):
                 shutil.rmtree(os.path.join(fp, d), ignore_errors=True)
 
 
-def _witness_dir(h):
+def _witness_dir(h, tag="repo"):
     """Materialise the witness crate next to the cache with a path dependency on the source tree."""
-    wd = os.path.join(CACHE, "witness")
+    wd = os.path.join(CACHE, f"witness-{tag}")
     os.makedirs(os.path.join(wd, "src"), exist_ok=True)
     for f in os.listdir(os.path.join(VERIF, "witness", "src")):
         shutil.copy(os.path.join(VERIF, "witness", "src", f), os.path.join(wd, "src", f))
@@ -124,13 +124,15 @@ def extract(config="default", verbose=True):
             t0 = time.time()
             if config in CONFIGS:
                 extra, crates = CONFIGS[config]
-                target = os.path.join(CACHE, "target-witness")
-                cwd = _witness_dir(h)
+                tag = "repo" if src_root() == "/repo" else hashlib.sha256(src_root().encode()).hexdigest()[:8]
+                target = os.path.join(CACHE, f"target-witness-{tag}")
+                cwd = _witness_dir(h, tag)
                 cmd = ["cargo", "+nightly", "check", "--offline"] + extra
                 members = ["remoc", "remoc_witness", "remoc_macro"]
             else:
                 crates = "remoc,tests"
-                target = os.path.join(CACHE, "target-repo")
+                tag = "repo" if src_root() == "/repo" else hashlib.sha256(src_root().encode()).hexdigest()[:8]
+                target = os.path.join(CACHE, f"target-repo-{tag}")
                 cwd = src_root()
                 cmd = ["cargo", "+nightly", "check", "--offline"] + REPO_CONFIGS[config]
                 members = ["remoc", "remoc_macro"]
